@@ -9,6 +9,7 @@
 #include <map>
 #include <ostream>
 #include <string>
+#include <utility>
 #include <vector>
 
 #include "../Exceptions.h"
@@ -46,6 +47,12 @@ private:
    * the father node becomes a son, and so on.
    */
   void propagateDirection_(Graph::NodeId node);
+
+  /**
+   * List the relations of a valid unrooted tree as (father, son) pairs seen
+   * from a node: recursive function for rootAt
+   */
+  void fillRelationsFrom_(Graph::NodeId node, Graph::NodeId originNode, std::vector<std::pair<Graph::NodeId, Graph::NodeId>>& relations) const;
 
   // recursive function for getSubtreeNodes
   void fillSubtreeMetNodes_(std::vector<Graph::NodeId>& metNodes, Graph::NodeId localRoot) const;
@@ -344,11 +351,45 @@ void TreeGraphImpl<GraphImpl>::rootAt(Graph::NodeId newRoot)
   // checked before the graph is made directed
   GraphImpl::nodeMustExist_(newRoot, "new root");
 
-  GraphImpl::makeDirected();
-  // set the new root on the Graph
-  GraphImpl::setRoot(newRoot);
-  // change edge direction between the new node and the former one
-  propagateDirection_(newRoot);
+  if (isRooted())
+  {
+    // set the new root on the Graph
+    GraphImpl::setRoot(newRoot);
+    // change edge direction between the new node and the former one
+    propagateDirection_(newRoot);
+  }
+  else
+  {
+    // the relations of the unrooted tree as they are met from the new root: (father, son)
+    std::vector<std::pair<Graph::NodeId, Graph::NodeId>> relations;
+    fillRelationsFrom_(newRoot, newRoot, relations);
+    // makeDirected keeps one direction of each relation, whatever the root...
+    GraphImpl::makeDirected();
+    // set the new root on the Graph
+    GraphImpl::setRoot(newRoot);
+    // ...the relations that lead towards the new root are turned round
+    for (const auto& relation : relations)
+    {
+      if (GraphImpl::getTop(GraphImpl::getAnyEdge(relation.first, relation.second)) != relation.first)
+        GraphImpl::switchNodes(relation.first, relation.second);
+    }
+  }
+}
+
+template<class GraphImpl>
+void TreeGraphImpl<GraphImpl>::fillRelationsFrom_(Graph::NodeId node, Graph::NodeId originNode, std::vector<std::pair<Graph::NodeId, Graph::NodeId>>& relations) const
+{
+  // in an unrooted tree every neighbour is an outgoing neighbour
+  const std::vector<Graph::NodeId> neighbors = GraphImpl::getOutgoingNeighbors(node);
+  for (auto currNeighbor : neighbors)
+  {
+    // do not walk back the relation we came through (the first call has no origin:
+    // originNode == node, and a valid tree has no loop)
+    if (currNeighbor == originNode)
+      continue;
+    relations.push_back(std::pair<Graph::NodeId, Graph::NodeId>(node, currNeighbor));
+    fillRelationsFrom_(currNeighbor, node, relations);
+  }
 }
 
 template<class GraphImpl>
